@@ -77,6 +77,18 @@ type raceReport struct {
 	Block string
 }
 
+// workerExe is this binary (or its -race sibling for race-detector properties).
+func workerExe(p *Prop) string {
+	exe, err := os.Executable()
+	if err != nil {
+		exe = filepath.Join(VerifDir(), "bin", "vworker")
+	}
+	if p.Race && !strings.HasSuffix(exe, "-race") {
+		exe += "-race"
+	}
+	return exe
+}
+
 // Drive runs a whole check and returns the process exit code.
 func Drive(id, tier string, seed int64) int {
 	p := Lookup(id)
@@ -89,10 +101,7 @@ func Drive(id, tier string, seed int64) int {
 	for _, d := range []string{"evidence", "replays", "logs"} {
 		os.MkdirAll(filepath.Join(root, d), 0o755)
 	}
-	exe := filepath.Join(root, "bin", "vworker")
-	if p.Race {
-		exe = filepath.Join(root, "bin", "vworker-race")
-	}
+	exe := workerExe(p)
 	n := 1
 	if p.Shards != nil {
 		n = p.Shards(tier)
@@ -461,10 +470,7 @@ func Replay(path string) int {
 	if p == nil {
 		return 2
 	}
-	exe := filepath.Join(VerifDir(), "bin", "vworker")
-	if p.Race {
-		exe = filepath.Join(VerifDir(), "bin", "vworker-race")
-	}
+	exe := workerExe(p)
 	r := runShard(p, exe, rep.Tier, rep.Seed, rep.Shard, rep.NShards, rep.Case, 10*time.Minute)
 	if len(r.viols) > 0 || len(r.races) > 0 || (!r.done && p.CrashIsViolation) {
 		for _, v := range r.viols {
